@@ -453,7 +453,7 @@ fn truncate_chars(input: &str, max_len: usize) -> String {
 
 #[cfg(kani)]
 #[path = "/verif/harness/ripd/compaction_auto_summary.rs"]
-mod verif_kani;
+pub mod verif_kani;
 
 #[cfg(test)]
 mod tests {
